@@ -8,7 +8,7 @@
    notification calls.  [log g x o f] is the global event log of one service life time as
    otelcol/collector.go drives it (Service.Start; Service.Shutdown also after a failed Start);
    [before a b l]: at every occurrence of b in l, a has occurred earlier. *)
-From Verif Require Import Common.Base C10.Model C10.Proofs1 C10.Proofs2 C10.Proofs3 C10.Proofs4.
+From Verif Require Import Common.Base C10.Model C10.Proofs1 C10.Proofs2 C10.Proofs3 C10.Proofs4 C10.Proofs5.
 
 (* the checker that validates the order taken from the implementation is sound *)
 Theorem is_topo_sound : forall ns es o, is_topo ns es o = true ->
@@ -109,6 +109,38 @@ Theorem stop_failure_continues : forall g x o f,
   (In (ErrXStop n) (snd (service_shutdown g x o f)) <-> In n (ext_order o) /\ fx_stop f n = true).
 Proof. exact p_stop_failure_continues. Qed.
 Print Assumptions stop_failure_continues.
+
+(* ---- the context handed to Start / Shutdown (collector_run_cx: contexts already done, components
+   that end the context during their call, context-sensitive components) ------------------------- *)
+
+(* with a live context that nobody ends the context-aware life time IS the life time of the
+   theorems above (so they all apply to it) *)
+Theorem run_cx_live : forall g x o f c, live_cx c -> collector_run_cx g x o f c = collector_run g x o f.
+Proof. exact l_run_cx_live. Qed.
+Print Assumptions run_cx_live.
+
+(* a cancelled / expired context never stops the remaining shutdowns: for EVERY context scenario
+   (done beforehand, ended by any component at any point, any set of context-sensitive components)
+   Service.Shutdown issues exactly the same complete call sequence *)
+Theorem shutdown_ignores_context : forall g x o f c done,
+  fst (service_shutdown_cx g x o f c done) = fst (service_shutdown g x o f).
+Proof. exact l_shutdown_ignores_context. Qed.
+Print Assumptions shutdown_ignores_context.
+
+(* ... failing Shutdown calls are still reported *)
+Theorem shutdown_failures_reported_any_context : forall g x o f c done n,
+  (In n (stop_seq g o) -> fc_stop f n = true -> In (ErrCStop n) (snd (service_shutdown_cx g x o f c done))) /\
+  (In n (ext_order o) -> fx_stop f n = true -> In (ErrXStop n) (snd (service_shutdown_cx g x o f c done))).
+Proof. exact l_shutdown_cx_reports. Qed.
+Print Assumptions shutdown_failures_reported_any_context.
+
+(* ... and every component / extension is shut down exactly once per life time under every
+   context scenario and every failure assignment *)
+Theorem exactly_one_stop_any_context : forall g x o f c, orders_ok g x o = true -> forall n,
+  (In n (comps g) -> count (CStop n) (fst (collector_run_cx g x o f c)) = 1) /\
+  (In n (exts x) -> count (XStop n) (fst (collector_run_cx g x o f c)) = 1).
+Proof. exact l_exactly_one_stop_any_context. Qed.
+Print Assumptions exactly_one_stop_any_context.
 
 (* sharedcomponent: for EVERY script of Start / Shutdown calls on one shared Component the inner
    component is started at most once and shut down at most once; once as soon as the script
